@@ -280,7 +280,11 @@ func RunProbes(a, b *abci.Chain, f Features, heightShifted bool) []Probe {
 			})
 		}
 		both("tx:claim-rewards", func(c *abci.Chain) string {
-			return txr(c, 1, &mstypes.MsgClaimRewards{Sender: A(c, 1).String()})
+			dbg := ""
+			if os.Getenv("C12_DEBUG") != "" {
+				dbg = " rewards=" + c.App.MultiStakingKeeper.GetDelegatorRewards(ctxOf(c), A(c, 1)).String() + fmt.Sprintf(" delegators=%d time=%d", len(c.App.MultiStakingKeeper.GetPoolDelegators(ctxOf(c), 1)), c.Time.Unix())
+			}
+			return txr(c, 1, &mstypes.MsgClaimRewards{Sender: A(c, 1).String()}) + dbg
 		})
 	}
 	if f.Spending {
